@@ -200,9 +200,73 @@ def render_stage(tier, rep):
     rep.cov["output_code_points_predicted"] = sum(len(t["html"]) for t in traces)
 
 
+_DL = []
+
+
+def delim_record(job):
+    """Calls of the real processDelimiters during one parse (observed by replacing the module attribute that
+    link_pairs looks up at call time - harness side, nothing in /repo changes)."""
+    from markdown_it.rules_inline import balance_pairs as bp
+
+    cfgkey, doc = job
+    if ("d", cfgkey) not in _MD:
+        _MD[("d", cfgkey)] = gen.make_md(json.loads(cfgkey))
+    md = _MD[("d", cfgkey)]
+    calls = []
+    real = bp.processDelimiters
+
+    def snap(ds):
+        return [[d.marker, d.length or 0, d.token, d.end, 1 if d.open else 0, 1 if d.close else 0] for d in ds]
+
+    def spy(state, delimiters):
+        before = snap(delimiters)
+        real(state, delimiters)
+        if before and len(calls) < 40:
+            calls.append({"in": before, "out": snap(delimiters)})
+    bp.processDelimiters = spy
+    try:
+        md.parse(doc)
+    finally:
+        bp.processDelimiters = real
+    return {"calls": calls}
+
+
+def delimiters_stage(tier, rep):
+    """Delimiters.tla: Opt == Naive on all small delimiter sequences (TLC); DelimitersTrace.tla on real calls."""
+    q = tier == "quick"
+    r = C.run_tlc("Delimiters", "Delimiters.cfg" if q else "Delimiters_thorough.cfg", allow_violation=False, timeout=1800)
+    rep.tlc("Delimiters[linear-time pairing == reference pairing; pairs well nested]", r)
+    rk = C.run_tlc("Delimiters", "Delimiters_keepinner.cfg")
+    if rk.ok or rk.violated != "OptIsNaive":
+        raise C.MachineryError("Delimiters keep_inner variant no longer violates OptIsNaive (vacuity guard)")
+    rep.tlc("Delimiters[reference without removal of inner delimiters, expected counter-example]", rk)
+    # emphasis-dense inline text: runs of * _ ~ of length 1-4 between words, punctuation and brackets
+    rnd = __import__("random").Random(C.SEED + 31)
+    atoms = ["*", "**", "***", "****", "_", "__", "___", "~~", "~~~", "a", "b ", " c", " ", ".", "(", ")", "[", "](/u)", "`x`", "\\*", "a_b", "*a", "a*"]
+    docs = []
+    for n in range(14000 if q else 200000):
+        docs.append("".join(rnd.choice(atoms) for _ in range(rnd.randint(2, 12))))
+    l2 = gen.docs("L2", tier, rep)
+    docs += gen.sample([d for d in l2 if "*" in d or "_" in d or "~" in d], 6000 if q else 100000, C.SEED + 32)
+    cfgs = [gen.cfg_key(c) for c in ({"preset": "commonmark", "on": ["strikethrough"], "off": [], "opts": []},
+                                     {"preset": "js-default", "on": [], "off": [], "opts": []})]
+    jobs = [(cfgs[k % 2], d) for k, d in enumerate(docs)]
+    res = C.pmap(delim_record, jobs, chunk=300)
+    keep = [(j, t) for j, t in zip(jobs, res) if t["calls"]]
+    verdicts, st = C.validate_traces("DelimitersTrace", [t for _, t in keep], shard=1500, heap="8g")
+    rep.tlc_stats("DelimitersTrace", st, len(keep))
+    for (job, t), (v, pos) in zip(keep, verdicts):
+        if v != "ok":
+            rep.violation(f"{v}:{job[0]}:{json.dumps(job[1])}", {"engine": "trace", "module": "DelimitersTrace", "clause": v,
+                                                                 "call_index": pos - 2, "input": {"delim_config": json.loads(job[0]), "doc": job[1]}})
+    rep.cov["delimiter_calls_validated"] = sum(len(t["calls"]) for _, t in keep)
+    rep.cov["delimiter_calls_with_a_pair"] = sum(1 for _, t in keep for c in t["calls"] if any(d[3] >= 0 for d in c["out"]))
+
+
 def run(tier, rep):
     linetable_stage(tier, rep)
     render_stage(tier, rep)
+    delimiters_stage(tier, rep)
     q = tier == "quick"
     l1 = gen.docs("L1", tier, rep, cfg="DocGen_L1_small.cfg" if q else None)
     l2 = gen.docs("L2", tier, rep)
@@ -240,6 +304,11 @@ def run(tier, rep):
 
 def replay(case, rep):
     i = case["input"]
+    if "delim_config" in i:
+        v, _ = C.validate_traces("DelimitersTrace", [delim_record((gen.cfg_key(i["delim_config"]), i["doc"]))])
+        if v[0][0] != "ok":
+            rep.violation(case.get("key", "replay"), case)
+        return
     if "render_config" in i:
         v, _ = C.validate_traces("RenderTrace", [render_record((gen.cfg_key(i["render_config"]), i["doc"]))])
         if v[0][0] != "ok":
